@@ -106,3 +106,137 @@ func ZZC02Basic() {
 	}
 	CheckExact(res.Diags, exp, "C02 instantiation forms")
 }
+
+const c02SrcF1 = `package d
+
+//«ctor»
+type T struct {
+	f int
+}
+
+type Account = T
+
+type Ts []T
+
+type PTs map[string]*T
+
+type Outer struct {
+	In  T
+	Ptr *T
+}
+
+func NewT() *T {
+	f := func() *T {
+		if true {
+			return &T{} // F-CTOR-CLOSURE
+		}
+		return new(T) // F-CTOR-CLOSURE-NEW
+	}
+	return f()
+}
+`
+
+const c02SrcF2 = `package d
+
+func MakT() Account {
+	var v Account // F-MAK-VAR
+	_ = new(Account) // F-MAK-NEW
+	_ = Ts{{f: 1}} // F-MAK-TS
+	return v
+}
+
+func init() {
+	_ = Account{} // F-INIT-ALIAS
+}
+
+func Forms(n int) {
+	a := Account{f: 1} // F-ALIAS-LIT
+	b := new(Account) // F-ALIAS-NEW
+	var c Account // F-ALIAS-VAR
+	d := Ts{{f: 1}} // F-NAMED-SLICE
+	e := PTs{"k": {f: 2}} // F-NAMED-PTRMAP
+	f := []*Account{{f: 3}} // F-ELIDED-PTR
+	g := map[string]*Account{"k": {}} // F-ELIDED-PTRMAP
+	h := [2]Account{{}} // F-ARRAY
+	i := [][]Account{{{f: 4}}} // F-NESTED
+	j := Outer{In: Account{}} // F-FIELD
+	k := Outer{Ptr: &Account{}} // F-FIELDPTR
+	l := new((Account)) // F-PAREN-NEW
+	var m [2]Account // F-ARRAYVAR
+	var o Outer // F-OUTERVAR
+	for q := 0; q < n; q++ {
+		switch {
+		case q > 1:
+			if r := (Account{}); r.f == 0 { // F-NESTED-BLOCK
+				var s Account // F-NESTED-VAR
+				_ = s
+			}
+		}
+	}
+	go func() {
+		defer func() {
+			_ = new(Account) // F-DEFER-NEW
+		}()
+	}()
+	_, _, _, _, _, _, _, _, _, _, _, _, _, _ = a, b, c, d, e, f, g, h, i, j, k, l, m, o
+}
+
+func Gen[P any](p P) P {
+	_ = &Account{} // F-GENERIC
+	return p
+}
+
+type Q struct{}
+
+func (Q) Make() Account {
+	return Account{} // F-METHOD
+}
+
+var pkgAlias = Ts{{}} // F-PKG-NAMED
+
+var pkgNew = new(Account) // F-PKG-NEW
+`
+
+// ZZC02Forms: the annotated type is never spelled in the second file — it is reached through an alias and through named
+// slice/map types declared in the first file; elided elements of pointer element type, arrays, nested literals, literals
+// as field values, parenthesised type in new, closures inside a constructor, a constructor in the other file, init,
+// generic function, method, nested blocks, defer/go closures, package-level vars.
+func ZZC02Forms() {
+	ctor := nd.EnumPad("ctor", " @constructor NewT", " @constructor MakT, NewT", " @constructor MakT", " plain")
+	holes := []nd.Hole{{"ctor", ctor}}
+	files := []nd.File{{Pkg: "zzmod/d", Name: "d1.go", Src: c02SrcF1}, {Pkg: "zzmod/d", Name: "d2.go", Src: c02SrcF2}}
+	prog := nd.LoadProgram(files, holes)
+	res := Analyze(prog, config.Default(), "zzmod/d", Facts{}, "ctor")
+	ann := nd.HasPrefix(ctor, " @constructor")
+	newListed := nd.Or(nd.HasPrefix(ctor, " @constructor NewT"), nd.HasPrefix(ctor, " @constructor MakT, NewT"))
+	makListed := nd.HasPrefix(ctor, " @constructor MakT")
+	f1, f2 := "/zz/zzmod/d/d1.go", "/zz/zzmod/d/d2.go"
+	exp := []Expect{
+		{f1, nd.LineOf(c02SrcF1, "F-CTOR-CLOSURE"), "CTOR01", nd.And(ann, nd.Not(newListed))},
+		{f1, nd.LineOf(c02SrcF1, "F-CTOR-CLOSURE-NEW"), "CTOR02", nd.And(ann, nd.Not(newListed))},
+		{f2, nd.LineOf(c02SrcF2, "F-MAK-VAR"), "CTOR03", nd.And(ann, nd.Not(makListed))},
+		{f2, nd.LineOf(c02SrcF2, "F-MAK-NEW"), "CTOR02", nd.And(ann, nd.Not(makListed))},
+		{f2, nd.LineOf(c02SrcF2, "F-MAK-TS"), "CTOR01", nd.And(ann, nd.Not(makListed))},
+		{f2, nd.LineOf(c02SrcF2, "F-INIT-ALIAS"), "CTOR01", ann},
+		{f2, nd.LineOf(c02SrcF2, "F-ALIAS-LIT"), "CTOR01", ann},
+		{f2, nd.LineOf(c02SrcF2, "F-ALIAS-NEW"), "CTOR02", ann},
+		{f2, nd.LineOf(c02SrcF2, "F-ALIAS-VAR"), "CTOR03", ann},
+		{f2, nd.LineOf(c02SrcF2, "F-NAMED-SLICE"), "CTOR01", ann},
+		{f2, nd.LineOf(c02SrcF2, "F-NAMED-PTRMAP"), "CTOR01", ann},
+		{f2, nd.LineOf(c02SrcF2, "F-ELIDED-PTR"), "CTOR01", ann},
+		{f2, nd.LineOf(c02SrcF2, "F-ELIDED-PTRMAP"), "CTOR01", ann},
+		{f2, nd.LineOf(c02SrcF2, "F-ARRAY"), "CTOR01", ann},
+		{f2, nd.LineOf(c02SrcF2, "F-NESTED"), "CTOR01", ann},
+		{f2, nd.LineOf(c02SrcF2, "F-FIELD"), "CTOR01", ann},
+		{f2, nd.LineOf(c02SrcF2, "F-FIELDPTR"), "CTOR01", ann},
+		{f2, nd.LineOf(c02SrcF2, "F-PAREN-NEW"), "CTOR02", ann},
+		{f2, nd.LineOf(c02SrcF2, "F-NESTED-BLOCK"), "CTOR01", ann},
+		{f2, nd.LineOf(c02SrcF2, "F-NESTED-VAR"), "CTOR03", ann},
+		{f2, nd.LineOf(c02SrcF2, "F-DEFER-NEW"), "CTOR02", ann},
+		{f2, nd.LineOf(c02SrcF2, "F-GENERIC"), "CTOR01", ann},
+		{f2, nd.LineOf(c02SrcF2, "F-METHOD"), "CTOR01", ann},
+		{f2, nd.LineOf(c02SrcF2, "F-PKG-NAMED"), "CTOR01", ann},
+		{f2, nd.LineOf(c02SrcF2, "F-PKG-NEW"), "CTOR02", ann},
+	}
+	CheckExact(res.Diags, exp, "C02 forms through alias / named collection types, two files")
+}
